@@ -338,3 +338,14 @@ pub fn has_lister_shape(rules: &[AstRule]) -> bool {
     }
     rules.iter().any(|r| walk(&r.expr))
 }
+
+/// Runs a derived parser (generated code) by rule *name*; used by the generated crates.
+pub fn run_gen<P: pest::Parser<R>, R: pest::RuleType>(all: &[R], rule: &str, input: &str) -> Value {
+    let _ = pest::verif::take_last();
+    let r = match all.iter().find(|r| format!("{r:?}") == rule) {
+        Some(r) => *r,
+        None => return json!({"k": "norule"}),
+    };
+    let res = guarded(|| P::parse(r, input));
+    add_final_view(outcome_json(res, &|r: R| format!("{r:?}")))
+}
